@@ -78,7 +78,17 @@ def cases(tier, seed):
                     "i": i})
     for i in range(len(WEAK)):
         out.append({"id": "weak-coupling#%d" % i, "kind": "weak", "i": i})
+    # a cluster whose pairs share an x or a y coordinate exactly (special
+    # branch of the translation matrices): permutations and rotations
+    for opt in ("default", "tight"):
+        out.append({"id": "perm:aligned:%s" % opt, "kind": "perm",
+                    "sub": [0, 1, 2], "opt": opt, "aligned": True})
+    out.append({"id": "rot:aligned", "kind": "rot", "sub": [0, 1, 2],
+                "aligned": True})
     return out
+
+
+POS_ALIGNED = [(0.3, 0.1, 5.0), (0.3, 1.0, 5.6), (1.2, 0.1, 4.5)]
 
 
 # two small spheres far apart, observed on a distant plane: multiple
@@ -113,13 +123,16 @@ def _run_weak(case, ck):
     return digest(fp_values(a))
 
 
+_USE_ALIGNED = [False]
+
+
 def _spheres(sub, order=None, R=None, pivot=None):
     from holopy.scattering import Sphere, Spheres
     order = order if order is not None else list(range(len(sub)))
     mem = []
     for j in order:
         i = sub[j]
-        c = np.array(POS[i])
+        c = np.array(POS_ALIGNED[i] if _USE_ALIGNED[0] else POS[i])
         if R is not None:
             c = pivot + R @ (c - pivot)
         mem.append(Sphere(n=SPECS[i][0], r=SPECS[i][1], center=tuple(c)))
@@ -425,6 +438,7 @@ def _run_rule(case, ck):
 
 def run_case(case):
     ck = Checker()
+    _USE_ALIGNED[0] = bool(case.get("aligned"))
     fp = {"perm": _run_perm, "bigperm": _run_bigperm, "rot": _run_rot,
           "rule": _run_rule, "weak": _run_weak}[case["kind"]](case, ck)
     return ck.result(fp=fp)
